@@ -435,10 +435,18 @@ func runC36(c *an.Ctx) {
 			}
 			for _, in := range incM {
 				valid(in, "matching++")
+				// the reply's member is the decode target or the value a decoding helper returned: whatever
+				// it is, the address test and the port test are about the same value
+				const localAddr = ".Addr,memberlist.(*Memberlist).LocalNode($0.memberlist).Addr)"
+				who := ""
 				addr := an.EdgesWhere(rn, func(f an.Cmp) bool {
-					return strings.HasPrefix(f.L, "net.(IP).Equal(local:Member.Addr,memberlist.(*Memberlist).LocalNode($0.memberlist).Addr)") && f.Op == "==" && f.R == "c:true"
+					if strings.HasPrefix(f.L, "net.(IP).Equal(") && strings.HasSuffix(f.L, localAddr) && f.Op == "==" && f.R == "c:true" {
+						who = strings.TrimSuffix(strings.TrimPrefix(f.L, "net.(IP).Equal("), localAddr)
+						return true
+					}
+					return false
 				})
-				port := an.EdgesImplying(rn, an.Cmp{L: "local:Member.Port", Op: "==", R: "memberlist.(*Memberlist).LocalNode($0.memberlist).Port"})
+				port := an.EdgesImplying(rn, an.Cmp{L: who + ".Port", Op: "==", R: "memberlist.(*Memberlist).LocalNode($0.memberlist).Port"})
 				c.Add(an.Guarded(rn, in, addr), "R1", "matching++:address", in, "matching++ only if the reported address equals the local address", "edge dominance")
 				c.Add(an.Guarded(rn, in, port), "R1", "matching++:port", in, "matching++ only if the reported port equals the local port", "edge dominance")
 				// every matching reply was also counted as a response
